@@ -73,6 +73,8 @@ def swarm(prop, r, tier):
         w.update({"grow": 4, "edit": 2, "reject": 0.2, "phase": 1, "domfault": 0.2, "analyse": 0.2, "restart": 0.1, "observe": 2})
         cfg["groups"] = R.pick([0.5, 0.9])
         cfg["names"] = R.pick(["plain", "fancy", "fancy"])
+        if R.chance(0.05):
+            cfg["names"] = "dot"  # names the dot language treats specially (separate class)
     return cfg
 
 
@@ -188,4 +190,8 @@ def make_observe(g, m, cfg):
         ])
     if cfg["focus"] == "C19":
         op["render"] = [g.op_analysis_of(m, R.pick(["make_diag", "make_hdiag"])) for _ in range(R.randint(1, 2))]
+        for rop in op["render"]:
+            rop.pop("twice", None)
+            if R.chance(0.03) or cfg["names"] == "dot":
+                rop["real_dot"] = True
     return op
